@@ -281,6 +281,48 @@ func ruleDCGThread(c *Ctx, r *Report) {
 			}
 		}
 	}
+	// (added after seed C17e) the push-back of `H, PB --> B`: H(S0, S) :- B(S0, S1), S = PB ++ S1.  The terminals of
+	// the push-back lead FROM the head's remainder TO the body's remainder; the other way round is the
+	// translation of `H --> B, PB` (the push-back is consumed instead of being put back).  The undirected
+	// connectivity check above cannot tell the two apart.
+	if ex := c.fn("expandDCG"); ex != nil {
+		nt, body, terms := c.fn("dcgNonTerminal"), c.fn("dcgBody"), c.fn("dcgTerminals")
+		key := fname(ex) + "/push-back-direction"
+		desc := "the push-back terminals lead from the head's remainder to the body's remainder"
+		var T *ssa.Call
+		eachInstr(ex, func(in ssa.Instruction) {
+			if call, ok := in.(*ssa.Call); ok && terms != nil && call.Call.StaticCallee() == terms {
+				T = call
+			}
+		})
+		switch {
+		case nt == nil || body == nil || terms == nil:
+			r.undecided(rule, key, c.Pos(ex.Pos()), desc, "dcgNonTerminal, dcgBody or dcgTerminals not found")
+		case T == nil:
+			r.info(rule, key, c.Pos(ex.Pos()), desc, "the rule translator does not call dcgTerminals: no push-back support to check")
+		default:
+			var H, B *ssa.Call
+			eachInstr(ex, func(in ssa.Instruction) {
+				call, ok := in.(*ssa.Call)
+				if !ok || !(call.Block() == T.Block() || call.Block().Dominates(T.Block())) {
+					return
+				}
+				switch call.Call.StaticCallee() {
+				case nt:
+					H = call // the last one that dominates the push-back: the head of this branch
+				case body:
+					B = call
+				}
+			})
+			if H == nil || B == nil || len(T.Call.Args) < 3 || len(H.Call.Args) < 3 || len(B.Call.Args) < 3 {
+				r.undecided(rule, key, c.at(T), desc, "the head and body translation that precede the push-back were not recognised")
+			} else if c.sameVar(unbox(T.Call.Args[1]), unbox(H.Call.Args[2])) && c.sameVar(unbox(T.Call.Args[2]), unbox(B.Call.Args[2])) {
+				r.ok(rule, key, c.at(T), desc, "dcgTerminals(PB, <head's rest>, <body's rest>)", true)
+			} else {
+				r.bad(rule, key, c.at(T), desc, "the list and rest arguments of the push-back are not (head's rest, body's rest): the push-back terminals are consumed after the body instead of being put back in front of the remainder")
+			}
+		}
+	}
 	sort.Strings(names)
 	r.analysed(rule, names...)
 	_ = strings.Join
@@ -434,4 +476,12 @@ func ruleDCGSteadfast(c *Ctx, r *Report) {
 		})
 	}
 	r.analysed(rule, fmt.Sprintf("%d generated conjunctions / if-thens in the DCG translators", n))
+}
+
+// unbox: the value inside a MakeInterface (each use of a variable as an interface is a conversion of its own).
+func unbox(v ssa.Value) ssa.Value {
+	if mi, ok := v.(*ssa.MakeInterface); ok {
+		return mi.X
+	}
+	return v
 }
